@@ -206,6 +206,70 @@ def r3_environment(ctx):
     r.check("SealedState::header(UnsealedState::seal(^this, Option::None{}))" in fb, "last-header/fallback", "height-0 fallback = this.clone().seal(None).header()", "fallback closures return %s" % fb)
 
 
+def r6_own_covenant_table(ctx):
+    """Where the table of covenants an input is looked up in comes from, independently of how the functions are cut: it must be the covenants carried by
+    the spending transaction itself.  A table built once for the whole batch lets an input be unlocked by a covenant that only ANOTHER transaction of
+    the batch carries (the spender then need not reveal the script it is spending under)."""
+    r = ctx.rule("R6", "the table an input's covenant is looked up in is covenants_as_map() of the spending transaction itself, not a table shared by the batch", positional=False)
+    prog = ctx.prog
+    b = prog.body(AP + "check_tx_validity")
+    sites = q.call_exprs(b, "validate_tx_scripts") if b is not None else []
+    if not sites:
+        r.undecided("scripts/own-transaction", "no call of validate_tx_scripts in check_tx_validity: not decided")
+        return
+    ctx.analysed(b)
+    for bi, e in sites:
+        flat = []
+        for a in e[2]:
+            a = q.novers(a)
+            flat.extend([x for n_, x in a[3]] if a[0] == "agg" and not a[1].startswith("std::") else [a])
+        txs = {sig(x) for x in flat if x[0] == "param" and "Transaction" in b.locals[x[1]]["ty"]}
+        own = [x for x in flat if q.is_call(mir.strip(x), "Transaction::covenants_as_map")]
+        if own:
+            t = sig(q.novers(mir.strip(own[0])[2][0]))
+            if t in txs:
+                r.ok("scripts/own-transaction", "scripts = covenants_as_map(%s), the transaction being validated" % t, b.where(bi))
+            else:
+                r.undecided("scripts/own-transaction", "scripts = covenants_as_map(%s); the transaction handed on is %s: not decided" % (t, sorted(txs)), b.where(bi))
+            continue
+        tbl = [x for x in flat if x[0] == "param" and "HashMap<" in b.locals[x[1]]["ty"] and "Bytes" in b.locals[x[1]]["ty"]]
+        if len(tbl) != 1:
+            r.undecided("scripts/own-transaction", "no argument of validate_tx_scripts is a covenant table recognisably: not decided", b.where(bi))
+            continue
+        pi = tbl[0][1]
+        verdicts = []
+        for cid in prog.callers_of(b.id):
+            cb = prog.by_id[cid]
+            for cbi, t in cb.calls():
+                if mir.callee_id(t) != b.id:
+                    continue
+                ce = cb.rec_call(t, cbi)
+                act = mir.strip(q.novers(ce[2][pi - 1]))
+                txact = [mir.strip(q.novers(x)) for x in ce[2]]
+                if act[0] == "upvar" and cb.kind == "Closure" and cb.parent in prog.by_id:
+                    par = prog.by_id[cb.parent]
+                    cap = q.closure_captures(par, cb.nname)
+                    d = cap.get(act[1], cap.get("_ref__" + act[1].replace("_ref__", "")))
+                    d = mir.strip(q.novers(d)) if d is not None else None
+                    # a table defined outside the per-transaction closure cannot depend on the closure's transaction: it is one table for the batch
+                    if d is not None and any(q.is_call(y, "Transaction::covenants_as_map") for c2 in prog.closures_of(par) for _, y in q.call_exprs(c2, "Transaction::covenants_as_map")):
+                        verdicts.append(("shared", cb.where(cbi), sig(d)[:120]))
+                    else:
+                        verdicts.append(("?", cb.where(cbi), sig(d)[:120] if d is not None else "an unresolved capture"))
+                elif q.is_call(act, "Transaction::covenants_as_map") and any(sig(mir.strip(q.novers(act[2][0]))) == sig(x) for x in txact):
+                    verdicts.append(("own", cb.where(cbi), sig(act)))
+                else:
+                    verdicts.append(("?", cb.where(cbi), sig(act)[:120]))
+        if verdicts and all(v[0] == "own" for v in verdicts):
+            r.ok("scripts/own-transaction", "every caller passes covenants_as_map of the transaction it validates", b.where(bi))
+        elif any(v[0] == "shared" for v in verdicts):
+            v = [x for x in verdicts if x[0] == "shared"][0]
+            r.violation("scripts/own-transaction", "the covenant table handed to check_tx_validity is built outside the per-transaction step (%s) from covenants_as_map of the transactions "
+                        "of the batch: an input can be unlocked by a covenant carried by a different transaction" % v[2], v[1])
+        else:
+            r.undecided("scripts/own-transaction", "the covenant table comes from %s: not decided" % [v[2] for v in verdicts], b.where(bi))
+
+
 def r4_heap_layout(ctx):
     r = ctx.rule("R4", "Executor::new_from_env: 11 distinct HADDR_* slots, each with its designated component; Covenant::execute = new_from_env(self.ops, tx, env).run_to_end()")
     b = ctx.body("melvm::executor::Executor::new_from_env", r)
@@ -243,6 +307,26 @@ def r4_heap_layout(ctx):
         if name not in want:
             r.violation("slot/%s/unexpected" % name, "unexpected heap slot %s" % name)
     r.check(len(set(vals.values())) == len(vals), "distinct", "slot addresses are pairwise distinct", "slot addresses collide: %s" % vals)
+    # every slot is filled on every path: the two transaction slots on every path to the return, the environment slots on every path from the first of them
+    # (the branch taken when an environment is supplied) to the return
+    rets = set(b.return_blocks())
+    envs = [(n_, got[n_][1]) for n_ in want if n_ in got and want[n_].startswith(ENV) or n_ in got and ENV in want[n_]]
+    first = [bi for n_, bi in envs if all(b.dominates(bi, bj) for _, bj in envs)]
+    for name in want:
+        if name not in got:
+            continue
+        bi = got[name][1]
+        is_env = ENV in want[name]
+        start = first[0] if (is_env and first) else 0
+        if is_env and not first:
+            r.undecided("slot/%s/every-path" % name, "the environment slots have no common first insert: not decided", b.where(bi))
+            continue
+        if bi == start:
+            r.ok("slot/%s/every-path" % name, "%s is the first environment slot filled" % name, b.where(bi))
+            continue
+        wo = b.reachable(start, removed=[bi])
+        r.check(not (rets & set(wo)), "slot/%s/every-path" % name, "%s is filled on every path" % name,
+                "%s is filled only conditionally: a path from bb%d reaches the return without the insert (a covenant reading the slot then fails or sees nothing)" % (name, start), b.where(bi))
     # tx/txhash regardless of env; the rest only with env
     rr = q.ret_assignments(b)
     s = sig(q.novers(rr[0][2])) if rr else "?"
@@ -275,4 +359,4 @@ def shared(ctx):
     core.import_rules(ctx, [c10.r4_determinism, c10.r10_sigeok_bounds], "X10")
 
 
-RULES = [r1_no_bypass, r2_verdict, r3_environment, r4_heap_layout, shared]
+RULES = [r1_no_bypass, r2_verdict, r3_environment, r4_heap_layout, r6_own_covenant_table, shared]
